@@ -15,7 +15,7 @@ VERIF = Path(__file__).resolve().parent.parent
 REPO = Path(os.environ.get("SEED_REPO", "/repo"))
 BUILD = VERIF / ".build"
 TARGET = BUILD / "target"
-SEED_BIN = TARGET / "debug" / "seed"
+SEED_BIN = Path(os.environ["VERIF_SEED_BIN"]) if os.environ.get("VERIF_SEED_BIN") else TARGET / "debug" / "seed"
 LEAN_DIR = VERIF / "lean"
 MODEL_BIN = LEAN_DIR / ".lake" / "build" / "bin" / "seedmodel"
 NPROC = min(16, os.cpu_count() or 4)
@@ -47,6 +47,8 @@ def run_cmd(cmd, cwd=None, env=None, timeout=None, input=None):
 def build_impl():
     """cargo build of /repo's *current working tree* with hooks on, into /verif/.build/target."""
     BUILD.mkdir(exist_ok=True)
+    if os.environ.get("VERIF_SEED_BIN"):
+        return "(using the binary given in VERIF_SEED_BIN: coverage measurement only, never for a registered check)"
     import fcntl
     with open(BUILD / "cargo.lock", "w") as lk:
         fcntl.flock(lk, fcntl.LOCK_EX)
